@@ -83,6 +83,23 @@ def classify(rec):
     return "unknown", None
 
 
+def safe_concrete(mod, fn, params, args):
+    """run the concrete twin; an exception escaping from curtsies code while the twin observes the result is
+    a failure of the real code (the properties give it no licence to raise there); one from our own code is
+    a harness problem"""
+    import traceback
+    try:
+        return mod.concrete(fn, params, args)
+    except Exception as ex:
+        tb = traceback.extract_tb(ex.__traceback__)
+        inner = tb[-1].filename if tb else ""
+        where = "%s:%s" % (os.path.basename(inner), tb[-1].lineno if tb else 0)
+        if "/curtsies/" in inner and "/verif/" not in inner:
+            return {"ok": False, "observed": "raised %r at %s" % (ex, where), "expected": "no exception",
+                    "call": "%s%r" % (fn, tuple(args))}
+        return {"ok": None, "note": "harness exception %r at %s" % (ex, where), "harness_error": True}
+
+
 class Tracer:
     """records which curtsies functions the concrete twins enter (functions_encoded)"""
 
@@ -152,7 +169,7 @@ def main():
     for e in load_known(prop):
         w = e["witness"]
         with tracer:
-            res = mod.concrete(w["fn"], w["params"], w["args"])
+            res = safe_concrete(mod, w["fn"], w["params"], w["args"])
         concrete_runs += 1
         if e["status"] == "known":
             if res.get("ok") is False:
@@ -211,6 +228,8 @@ def main():
         entry = {"instance": rec["name"], "fn": rec["fn"], "params": rec["params"], "witness": rec["witness"],
                  "verdict": kind, "paths": rec.get("paths", 0), "z3_checks": rec.get("z3_checks", 0),
                  "z3_seconds": rec.get("z3_seconds", 0.0), "elapsed_s": rec.get("elapsed")}
+        if rec.get("notes"):
+            entry["notes"] = rec["notes"]
         if rec["witness"]:
             # must be refuted, and the model must replay as a TRUE instance of the property
             if kind == "refuted":
@@ -220,7 +239,7 @@ def main():
                     problems.append("witness %s: cannot parse %r" % (rec["name"], msg["message"][:200]))
                 else:
                     with tracer:
-                        res = mod.concrete(rec["fn"], rec["params"], ce[1])
+                        res = safe_concrete(mod, rec["fn"], rec["params"], ce[1])
                     concrete_runs += 1
                     if res.get("ok") is True:
                         counts["witness_ok"] += 1
@@ -261,7 +280,7 @@ def main():
                 problems.append("instance %s: cannot parse counterexample %r" % (rec["name"], msg["message"][:300]))
             else:
                 with tracer:
-                    res = mod.concrete(rec["fn"], rec["params"], ce[1])
+                    res = safe_concrete(mod, rec["fn"], rec["params"], ce[1])
                 concrete_runs += 1
                 if res.get("ok") is False:
                     region = mod.region_of(rec["fn"], rec["params"], ce[1]) if hasattr(mod, "region_of") else None
@@ -277,6 +296,9 @@ def main():
                                        "params": rec["params"], "args": ce[1], "solver_message": msg["message"][:1000],
                                        "result": res}, fh, indent=1, default=str)
                         violations.append((path, "%s: %s" % (rec["name"], json.dumps(res, default=str)[:300])))
+                elif res.get("ok") is None:
+                    counts["refuted_not_reproduced"] += 1
+                    problems.append("instance %s: counterexample %r could not be replayed: %s" % (rec["name"], ce[1], res.get("note")))
                 else:
                     counts["refuted_not_reproduced"] += 1
                     problems.append("instance %s: counterexample %r does not reproduce on the real code (%s): %s"
